@@ -11,7 +11,7 @@ import random
 import casadi as cs
 import numpy as np
 
-from vf import monitors, oracle as O, primmon, refmodel as R, workloads as W
+from vf import desc as D, drive, gen as G, monitors, oracle as O, primmon, refmodel as R, workloads as W
 
 PROP = "C17"
 WATCHDOG_S = 3000
@@ -279,6 +279,56 @@ def decide_network(ob, rec):
         rec.seen("network_origin_kinds", (ob.kind, o["kind"], o["eq"]))
 
 
+def replaced_link_scenarios(M, rec, rng, g, reps):
+    """Scripted in every run: the link fed by an origin is replaced (public API, same edge) by one with other
+    capacity-relevant parameters after a step; the next step is taken with the first segment of the NEW link
+    at its maximum / critical density, where the bounds of the new link bite."""
+    import copy
+
+    NE, CE = drive.engines(M)
+    for i in range(reps):
+        kind, eq = (("ramp", "in"), ("ramp", "out"), ("simple", "limited"), ("main", None))[i % 4]
+        desc = {"nodes": ["n0", "n1"],
+                "links": [{"id": "L0", "name": "L0", "up": "n0", "down": "n1", "N": rng.choice((1, 2, 3)), "lam": rng.choice((2, 3)), "L": 1.0,
+                           "rho_max": 180.0, "rho_crit": 33.5, "v_free": 102.0, "a": 1.867, "beta": 1.0, "vsl": None, "alpha": None}],
+                "origins": [{"id": "O0", "name": "O0", "node": "n0", "kind": kind, "C": 2500.0 if kind != "main" else None, "eq": eq}],
+                "dests": [{"id": "D0", "name": "D0", "node": "n1", "kind": "free"}]}
+        built = D.build(M, desc)
+        pars = g.pars()
+        kw = drive.step_pars(pars)
+        _, v0 = g.values(desc, "interior", allow_inf=False)
+        on_case({"desc": desc}, built)
+        try:
+            built.net.step(init_conditions=drive.np_init(built, v0, "vec1"), engine=NE(), **kw)
+        except Exception:
+            continue
+        d2 = copy.deepcopy(desc)
+        l2 = d2["links"][0]
+        l2.update(rho_max=round(rng.uniform(90.0, 130.0), 1), rho_crit=round(rng.uniform(20.0, 28.0), 1), v_free=round(rng.uniform(70.0, 90.0), 1),
+                  lam=rng.choice((1, 2)), name="L0r")
+        _n, links, _o, _d = D.make_objects(M, {"nodes": [], "links": [l2], "origins": [], "dests": []})
+        built.links["L0"] = links["L0"]
+        built.net.add_link(built.nodes["n0"], links["L0"], built.nodes["n1"])
+        built.desc = d2
+        _, vals = g.values(d2, "interior", allow_inf=False)
+        vals["L0"]["rho"][0] = rng.choice((l2["rho_max"], l2["rho_max"], 0.5 * (l2["rho_max"] + l2["rho_crit"])))
+        vals["O0"]["d"] = rng.uniform(2000.0, 6000.0)
+        vals["O0"]["w"] = rng.uniform(0.0, 200.0)
+        if "r" in vals["O0"]:
+            vals["O0"]["r"] = 1.0
+        if "q" in vals["O0"]:
+            vals["O0"]["q"] = 1e6
+        if kind == "main":
+            vals["O0"]["v_ctrl"] = 500.0
+            vals["L0"]["v"][0] = l2["v_free"]
+        on_case({"desc": d2}, built)
+        rec.count("replaced_link_scenarios")
+        try:
+            built.net.step(init_conditions=drive.np_init(built, vals, "vec1"), engine=NE(), **kw)
+        except Exception:
+            pass
+
+
 def run(M, rec, tier, seed, k, n):
     np.seterr(all="ignore")
     rng = random.Random(seed * 1000 + k + 1700)
@@ -313,6 +363,7 @@ def run(M, rec, tier, seed, k, n):
                       mutate_prefer=("flow_equation", "capacity", "fd"), before_case=on_case)
         W.symbolic_steps(M, rec, rng, symvals, 12 if tier == "quick" else 80, points=2)
         W.inplace_pairs(M, rec, rng, 40 if tier == "quick" else 400, allow_inf=False, before_case=on_case)
+        replaced_link_scenarios(M, rec, rng, G.NetGen(rng), 24 if tier == "quick" else 200)
         W.closed_loop(M, rec, rng, 7 if tier == "quick" else 14, 90 if tier == "quick" else 260, on_step=on_step)
     finally:
         sm.uninstall()
